@@ -92,7 +92,7 @@ def run_case(ctx, name, params):
     elif name == "generated":
         r = ctx.rng("g", params["seed"])
         size = r.randint(1, params["max_size"])
-        m = r.randint(1, 4)
+        m = r.choice([1, 2, 2, 3, 3, 4, 5, 6, 8])
         costs = gen.population_costs(r, size, m)
         base_rank = None
         for shuffle in range(3):
